@@ -69,6 +69,12 @@ func H_c09() {
 	// the emitted text is base64: it passes JSON serialisation unchanged and is one line
 	_, derr := base64.StdEncoding.DecodeString(ct)
 	verifAssert(derr == nil, "emitted-text-is-base64")
+	// "any content" includes strings that are themselves ciphertexts of an earlier run (a redacted
+	// value quoted in a later query, a redacted file redacted again): same round trip
+	ct2 := redactString(ct, "placeholder")
+	verifEmit(ct2)
+	got2, ok2 := verifDecryptAsCLI(ct2, stored)
+	verifAssert(ok2 && got2 == ct, "round-trip-exact-for-ciphertext-content")
 }
 
 // H_c09_b64: the real encoding/base64 code on symbolic bytes: DecodeString(EncodeToString(c)) = c.
